@@ -25,7 +25,7 @@
 EXTENDS TraceLib, Extract, FiniteSetsExt
 VARIABLES l, n, u0, mode, have, pg, pc, pfr, gadgets, viol, drift, stats
 vars == <<l, n, u0, mode, have, pg, pc, pfr, gadgets, viol, drift, stats>>
-DENMAX == 14
+DENMAX == 6
 E0 == [n |-> 0, gates |-> <<>>]
 Init == l = 1 /\ n = 0 /\ u0 = <<>> /\ mode = "" /\ have = FALSE /\ pg = EmptyG /\ pc = E0 /\ pfr = <<>> /\ gadgets = {}
         /\ viol = <<>> /\ drift = <<>>
@@ -39,14 +39,6 @@ Perms(k) == {p \in [1..k -> 1..k] : \A i, j \in 1..k : i # j => p[i] # p[j]}
 Equivalent(o) == o.n = n /\ ~TIsZero(CircSem(o)) /\ ProjEq(CircSem(o), u0)
 EquivUpToPerm(o) == o.n = n /\ LET s == CircSem(o) IN
                     ~TIsZero(s) /\ \E p \in Perms(n) : ProjEq(Compose(PermTensor(n, p), n, n, s, n), u0)
-SameUpToNew(spec, impl, old) ==
-  LET ns == spec.vs \ old
-      ni == impl.vs \ old
-  IN /\ Cardinality(ns) = Cardinality(ni)
-     /\ spec.vs \cap old = impl.vs \cap old
-     /\ IF ns = {} THEN spec = impl
-        ELSE \E m \in {f \in [ns -> ni] : \A x, y \in ns : x # y => f[x] # f[y]} :
-               Rename(spec, [v \in spec.vs |-> IF v \in ns THEN m[v] ELSE v]) = impl
 \* equal gate sequences up to the order (and the qubit order) inside maximal runs of CZ gates
 IsCZ(A, i) == A[i].t = "CZ"
 RunOf(A, i) == {k \in 1..Len(A) : \A j \in (IF k < i THEN k..i ELSE i..k) : IsCZ(A, j)}
